@@ -82,34 +82,77 @@ class GuardInfo:
         self.why = why
 
 
+def single_defs(fnode):
+    """name -> value expr for locals with exactly one plain assignment."""
+    cnt = {}
+    val = {}
+    for n in ast.walk(fnode):
+        if isinstance(n, ast.Name) and isinstance(n.ctx, ast.Store):
+            cnt[n.id] = cnt.get(n.id, 0) + 1
+        if isinstance(n, ast.Assign) and len(n.targets) == 1 and isinstance(n.targets[0], ast.Name):
+            val[n.targets[0].id] = n.value
+    return {k: v for k, v in val.items() if cnt.get(k) == 1}
+
+
+def expand(e, defs, running, depth=0):
+    """Inline single-definition locals (not the running estimates) so that a
+    hoisted sub-expression is seen through."""
+    if depth > 6:
+        return e
+    if isinstance(e, ast.Name) and e.id in defs and e.id not in running:
+        return expand(defs[e.id], defs, running, depth + 1)
+    if isinstance(e, ast.BinOp):
+        return ast.BinOp(left=expand(e.left, defs, running, depth + 1), op=e.op,
+                         right=expand(e.right, defs, running, depth + 1))
+    if isinstance(e, ast.UnaryOp):
+        return ast.UnaryOp(op=e.op, operand=expand(e.operand, defs, running, depth + 1))
+    if isinstance(e, ast.Call):
+        return ast.Call(func=e.func, args=[expand(a, defs, running, depth + 1) for a in e.args],
+                        keywords=[ast.keyword(arg=k.arg, value=expand(k.value, defs, running, depth + 1)) for k in e.keywords])
+    return e
+
+
+def pure_arith(e):
+    for n in ast.walk(e):
+        if isinstance(n, (ast.Call, ast.Subscript, ast.IfExp, ast.Compare, ast.BoolOp)):
+            return False
+    return True
+
+
 def find_guards(fnode, L, running):
-    """Comparisons between the running spent-estimate and self.budget_."""
-    edges = dep_edges(L.body)
+    """Comparisons between the running spent-estimate and self.budget_ (seen
+    through hoisted single-definition locals)."""
+    defs = single_defs(fnode)
+    # loop-local single defs only count when defined inside the loop or before it
     guards = []
     for n in ast.walk(L):
         if not (isinstance(n, ast.Compare) and len(n.ops) == 1):
             continue
-        l, r = n.left, n.comparators[0]
+        l, r = expand(n.left, defs, running), expand(n.comparators[0], defs, running)
         op = n.ops[0]
         ln, rn = names_in(l), names_in(r)
         lrun, rrun = ln & running, rn & running
         lb, rb = BUDGET_ATTR in ln, BUDGET_ATTR in rn
         if (lrun and rb and not rrun and not lb):
-            # spent <op> budget
             ok = isinstance(op, (ast.Lt, ast.LtE))
-            guards.append(GuardInfo(n, lrun, ok, "spent-estimate on the left, budget on the right: needs < / <="))
+            why = "spent-estimate on the left, budget on the right: needs < / <="
+            if not pure_arith(r):
+                ok = False
+                why = f"the budget is compared through a non-arithmetic transformation `{ast.unparse(r)[:50]}`"
+            guards.append(GuardInfo(n, lrun, ok, why))
         elif (rrun and lb and not lrun and not rb):
             ok = isinstance(op, (ast.Gt, ast.GtE))
-            guards.append(GuardInfo(n, rrun, ok, "budget on the left, spent-estimate on the right: needs > / >="))
-        elif isinstance(l, ast.Name) and isinstance(r, ast.Constant) and isinstance(r.value, (int, float)):
-            # remaining = observed * budget - queried ;  remaining >(=) const
-            d = None
-            for a in ast.walk(L):
-                if isinstance(a, ast.Assign) and any(isinstance(t, ast.Name) and t.id == l.id for t in a.targets):
-                    d = a.value
-            if d is not None and isinstance(d, ast.BinOp) and isinstance(d.op, ast.Sub) \
+            why = "budget on the left, spent-estimate on the right: needs > / >="
+            if not pure_arith(l):
+                ok = False
+                why = f"the budget is compared through a non-arithmetic transformation `{ast.unparse(l)[:50]}`"
+            guards.append(GuardInfo(n, rrun, ok, why))
+        elif isinstance(r, ast.Constant) and isinstance(r.value, (int, float)) and lb and lrun:
+            # remaining = allowance - spent  compared with a constant
+            d = l
+            if isinstance(d, ast.BinOp) and isinstance(d.op, ast.Sub) \
                     and BUDGET_ATTR in names_in(d.left) and (names_in(d.right) & running) \
-                    and BUDGET_ATTR not in names_in(d.right):
+                    and BUDGET_ATTR not in names_in(d.right) and pure_arith(d):
                 ok = isinstance(op, (ast.Gt, ast.GtE))
                 guards.append(GuardInfo(n, (names_in(d) & running), ok,
                                         "remaining = allowance - spent compared with a constant: needs > / >="))
@@ -231,6 +274,22 @@ def _in_param_loop(ev):
             if back & {"candidates", "queried_indices"}:
                 return True
     return False
+
+
+def stale_loop_vars(fnode):
+    out = []
+    for L in ast.walk(fnode):
+        if isinstance(L, (ast.For, ast.AsyncFor)):
+            tv = {n.id for n in ast.walk(L.target) if isinstance(n, ast.Name)}
+            inside = {id(x) for x in ast.walk(L)}
+            for n in ast.walk(fnode):
+                if isinstance(n, ast.Name) and isinstance(n.ctx, ast.Load) and n.id in tv and id(n) not in inside \
+                        and n.lineno > L.end_lineno:
+                    rebound = any(isinstance(m, ast.Name) and isinstance(m.ctx, ast.Store) and m.id == n.id
+                                  and id(m) not in inside and L.end_lineno < m.lineno <= n.lineno for m in ast.walk(fnode))
+                    if not rebound:
+                        out.append((n.id, L.lineno, n.lineno))
+    return out
 
 
 class MustUpdate(MustAnalysis):
@@ -366,6 +425,18 @@ def run(p, report, tier):
                        f"{upd.file}:{upd.node.lineno}", bool(dep_q),
                        detail=(f"`{norm_stmt(dep_q[0].ev.node, 70)}`" if dep_q else
                                f"no store to self.{attr} in update depends on queried_indices / candidates"))
+    # per-instance indicator must not be used after its loop (only the last
+    # instance of a chunk would be accounted)
+    seen_fn = set()
+    for ci, f in ents:
+        for g in (f, p.find_method(ci, "update")):
+            if g is None or id(g.node) in seen_fn:
+                continue
+            seen_fn.add(id(g.node))
+            stale = stale_loop_vars(g.node)
+            report.add("R4.4", g.qual, "no per-instance loop variable is read after its loop", f"{g.file}:{g.node.lineno}",
+                       not stale, detail="; ".join(f"`{v}` (loop at line {ll}) read at line {ln}" for v, ll, ln in stale) or
+                       "accounting statements stay inside the per-instance loop", nontrivial=False)
     report.assumptions += [
         "the numerical bounds of the property follow from R4.1-R4.4 by arithmetic that is not in the code; only the four structural premises are decided",
         "strict vs. non-strict comparison is not judged",
